@@ -669,10 +669,10 @@ class DatasetBuilder:
         if pa.types.is_dictionary(val_array.type):
             # categorical input: replace_with_mask has no dictionary kernel
             val_array = val_array.dictionary_decode()
-        # replace_with_mask consumes the values in table-row order
+        # replace_with_mask consumes the values in table-row order; take also copies a
+        # sliced input (replace_with_mask misreads a sliced boolean replacement array)
         order = np.argsort(nums.to_numpy())
-        if np.any(np.diff(order) < 0):
-            val_array = val_array.take(order)
+        val_array = val_array.take(order)
         tbl_mask = np.zeros(e_tbl.num_rows, dtype=np.bool_)
         tbl_mask[nums.to_numpy()] = True
         tbl_mask = pa.array(tbl_mask)
